@@ -263,3 +263,48 @@ pub fn run_sql(rt: &tokio::runtime::Runtime, ctx: &ExecutionContext, sql: &str) 
         Err(p) => json!({"panic": crate::panic_message(p)}),
     }
 }
+
+/// Execute a logical plan with the real physical planner and operators (what ctx.sql does after
+/// optimisation), so callers can run the bound, UNOPTIMISED plan or a plan optimised by a chosen
+/// rule list.
+pub fn run_logical(
+    rt: &tokio::runtime::Runtime,
+    ctx: &ExecutionContext,
+    plan: &query_engine::planner::LogicalPlan,
+) -> Value {
+    use futures::TryStreamExt;
+    use query_engine::physical::PhysicalPlanner;
+    let r = std::panic::catch_unwind(std::panic::AssertUnwindSafe(|| -> query_engine::Result<Value> {
+        let mut planner = PhysicalPlanner::with_config(ctx.memory_pool().clone(), ctx.config().clone());
+        for name in ctx.table_names() {
+            planner.register_table(name.clone(), ctx.table_provider(&name).unwrap());
+        }
+        planner.enable_subquery_execution();
+        let physical = planner.create_physical_plan(plan)?;
+        let n = physical.output_partitions().max(1);
+        let mut all = Vec::new();
+        for p in 0..n {
+            let ph = physical.clone();
+            let batches: Vec<RecordBatch> = rt.block_on(async move {
+                let s = ph.execute(p).await?;
+                s.try_collect().await
+            })?;
+            all.extend(batches);
+        }
+        Ok(batches_json(&physical.schema(), &all))
+    }));
+    match r {
+        Ok(Ok(v)) => json!({ "ok": v }),
+        Ok(Err(e)) => json!({"err": e.to_string()}),
+        Err(p) => json!({"panic": crate::panic_message(p)}),
+    }
+}
+
+/// Bound but unoptimised plan of `sql`, executed.
+pub fn run_sql_noopt(rt: &tokio::runtime::Runtime, ctx: &ExecutionContext, sql: &str) -> Value {
+    match std::panic::catch_unwind(std::panic::AssertUnwindSafe(|| ctx.logical_plan(sql))) {
+        Ok(Ok(plan)) => run_logical(rt, ctx, &plan),
+        Ok(Err(e)) => json!({"err": e.to_string()}),
+        Err(p) => json!({"panic": crate::panic_message(p)}),
+    }
+}
